@@ -172,6 +172,7 @@ impl Display for Interval {
         write(self.hours(), "hour")?;
         write(self.minutes(), "minute")?;
         write(self.seconds(), "second")?;
+        write(self.ms % 1000, "millisecond")?;
         Ok(())
     }
 }
@@ -194,6 +195,7 @@ impl FromStr for Interval {
         let mut hours = 0;
         let mut minutes = 0;
         let mut seconds = 0;
+        let mut millis = 0;
 
         let mut last_val: Option<i32> = None;
         let s = s.replace('_', " "); // allow '_' as alias for space
@@ -206,6 +208,7 @@ impl FromStr for Interval {
                     "hour" | "hours" => hours = val,
                     "minute" | "minutes" => minutes = val,
                     "second" | "seconds" => seconds = val,
+                    "millisecond" | "milliseconds" => millis = val,
                     unit => return Err(Self::Err::InvalidUnit(unit.into())),
                 }
                 last_val = None;
@@ -219,7 +222,7 @@ impl FromStr for Interval {
         Ok(Interval {
             months: years * 12 + months,
             days,
-            ms: ((hours * 60 + minutes) * 60 + seconds) * 1000,
+            ms: ((hours * 60 + minutes) * 60 + seconds) * 1000 + millis,
         })
     }
 }
